@@ -41,6 +41,10 @@ type machine struct {
 	execPrefixes       []string
 	initPrefixes       []string
 	zeroPolicy         []string
+	sharedInit         map[string]bool
+	sharedMu           sync.Mutex
+	sharedGlobals      map[*ssa.Global]*value
+	sharedDone         map[*ssa.Package]bool
 }
 
 // harnessOverlay maps /verif/harness/<pkgdir>/<file>.go to <repo>/<pkgdir>/zz_verif_<file>.go
@@ -146,13 +150,26 @@ func loadMachine(repoDir, harnessDir string, patterns []string) (*machine, error
 		"errors", "sort", "path", "unicode/utf8", "unicode", "encoding/binary", "bufio", "io", "container/list",
 		"golang.org/x/sync/semaphore", "strconv", "container/heap", "math", "math/bits", "bytes", "strings", "slices", "cmp",
 		"github.com/ipfs/go-datastore", "github.com/ipfs/go-datastore/query", "github.com/ipfs/boxo/path",
-		"github.com/hashicorp/golang-lru", "encoding/base64", "encoding/hex", "net/url", "sync/atomic", "unicode/utf16", "time",
+		"github.com/hashicorp/golang-lru", "encoding/base64", "encoding/hex", "net/url", "sync/atomic", "unicode/utf16", "time", "internal/stringslite", "internal/bytealg", "internal/itoa", "maps", "iter",
 	}
 	m.initPrefixes = []string{
 		"berty.tech/go-orbit-db", "berty.tech/go-ipfs-log", "errors", "io", "bufio", "encoding/binary",
 		"github.com/ipfs/go-datastore", "context", "path", "golang.org/x/sync/semaphore", "github.com/ipfs/boxo/path",
 		"encoding/base64", "strings", "bytes", "strconv",
+		// package-level tables of the interpreted library packages (an uninitialised table
+		// would silently compute wrong results); package unicode itself is modelled by
+		// intrinsics (its tables are huge)
+		"unicode/utf8", "unicode/utf16", "math/bits", "math", "sort", "container/list", "container/heap",
+		"slices", "cmp", "encoding/hex", "net/url", "time", "github.com/hashicorp/golang-lru", "maps", "iter",
+		"internal/stringslite", "internal/itoa",
 	}
+	m.sharedInit = map[string]bool{}
+	for _, pth := range []string{"strconv", "unicode/utf8", "unicode/utf16", "math/bits", "math", "encoding/base64", "encoding/hex",
+		"strings", "bytes", "internal/itoa", "internal/stringslite", "sort", "slices", "cmp", "net/url", "time", "maps", "iter"} {
+		m.sharedInit[pth] = true
+	}
+	m.sharedGlobals = map[*ssa.Global]*value{}
+	m.sharedDone = map[*ssa.Package]bool{}
 	m.zeroPolicy = []string{"go.uber.org/zap", "go.opentelemetry.io/otel", "github.com/ipfs/kubo/core/coreiface/options"}
 	m.registerIntrinsics()
 	return m, nil
@@ -226,6 +243,39 @@ func (i *interpreter) ensureInit(p *ssa.Package) {
 	i.initDone[p] = true
 	if !hasPkgPrefix(p.Pkg.Path(), i.m.initPrefixes) {
 		return
+	}
+	// library packages whose package-level variables are immutable tables (and their own
+	// sentinel errors) are initialised ONCE per run and their cells shared by all paths
+	if i.m.sharedInit[p.Pkg.Path()] {
+		i.m.sharedMu.Lock()
+		if i.m.sharedDone[p] {
+			for n := range p.Members {
+				if g, ok := p.Members[n].(*ssa.Global); ok {
+					if c, have := i.m.sharedGlobals[g]; have {
+						i.globals[g] = c
+					}
+				}
+			}
+			i.m.sharedMu.Unlock()
+			return
+		}
+		i.m.sharedMu.Unlock()
+		// not published yet: this path runs the initialiser (possibly at the same time as
+		// another worker; the first to finish publishes, the other keeps its private cells)
+		defer func() {
+			i.m.sharedMu.Lock()
+			if !i.m.sharedDone[p] {
+				for n := range p.Members {
+					if g, ok := p.Members[n].(*ssa.Global); ok {
+						if c, have := i.globals[g]; have {
+							i.m.sharedGlobals[g] = c
+						}
+					}
+				}
+				i.m.sharedDone[p] = true
+			}
+			i.m.sharedMu.Unlock()
+		}()
 	}
 	i.m.buildPkg(p)
 	// allocate the package's globals
